@@ -127,8 +127,16 @@ def make_optimizer(spec, params, dcfg):
         graft = RMSpropGraftingConfig(beta2=g[1], epsilon=g[2])
     else:
         graft = AdamGraftingConfig(beta2=g[1], epsilon=g[2])
+    import torch
+    if spec.get("groups"):      # several parameter groups (identical hyper-parameters unless "group_lr" is given)
+        lrs = spec.get("group_lr") or [None] * len(spec["groups"])
+        params = [dict({"params": [params[i] for i in g]}, **({"lr": lr} if lr is not None else {})) for g, lr in zip(spec["groups"], lrs)]
+        params = [g for g in params if g["params"]]
+    extra = {}
+    if spec.get("precond_dtype"):
+        extra["preconditioner_dtype"] = getattr(torch, spec["precond_dtype"])
     return DistributedShampoo(
-        params, lr=c["lr"], betas=c["betas"], epsilon=c["epsilon"], momentum=c.get("momentum", 0.0),
+        params, **extra, lr=c["lr"], betas=c["betas"], epsilon=c["epsilon"], momentum=c.get("momentum", 0.0),
         weight_decay=c.get("weight_decay", 0.0), max_preconditioner_dim=spec["maxdim"], precondition_frequency=c["freq"],
         start_preconditioning_step=c["start"], use_nesterov=c.get("nesterov", False),
         use_bias_correction=c.get("bias_correction", True), use_decoupled_weight_decay=c.get("decoupled", True),
@@ -140,19 +148,63 @@ def make_full_tensors(spec):
     """Full (unsharded) initial values and full gradients per step; values never depend on the presence pattern."""
     import torch
     g = torch.Generator().manual_seed(int(spec["seed"]))
-    init = [torch.randn(tuple(sh), generator=g) for sh in spec["shapes"]]
-    grads = [[torch.randn(tuple(sh), generator=g) for sh in spec["shapes"]] for _ in spec["presence"]]
+    dt = getattr(torch, spec.get("pdtype", "float32"))
+    sc = float(spec.get("grad_scale", 1.0))
+    init = [torch.randn(tuple(sh), generator=g).to(dt) for sh in spec["shapes"]]
+    grads = [[(torch.randn(tuple(sh), generator=g) * sc).to(dt) for sh in spec["shapes"]] for _ in spec["presence"]]
     return init, grads
+
+
+def grad_values(spec, grads, t, k, a, b, r):
+    """Values of the gradient shard of parameter k on shard rank r at step t (contiguous).  spec["zero"] makes PRESENT
+    gradients exactly zero on a rank's shard / a parameter / an element range of the shard at the listed steps."""
+    g = grads[t][k].reshape(-1)[a:b].clone()
+    z = spec.get("zero")
+    if z and t in z["steps"] and z.get("rank", r) == r and z.get("param", k) == k:
+        g[z.get("lo", 0):z.get("hi")] = 0
+    return g
+
+
+def place(values, layout):
+    """Give 1-D tensors a memory layout: fresh (own storage, offset 0), flat_views (views at non-zero offsets of ONE flat
+    buffer, as FSDP's use_orig_params views of the flat parameter are), strided (non-contiguous 1-D views)."""
+    import torch
+    if layout == "flat_views":
+        total = sum(v.numel() for v in values)
+        buf = torch.zeros(total + 5, dtype=values[0].dtype if values else torch.float32)
+        out, off = [], 3
+        for v in values:
+            w = buf[off:off + v.numel()]
+            w.copy_(v)
+            out.append(w)
+            off += v.numel()
+        return out
+    if layout == "strided":
+        out = []
+        for v in values:
+            big = torch.zeros(2 * v.numel() + 1, dtype=v.dtype)
+            w = big[1::2][:v.numel()]
+            w.copy_(v)
+            out.append(w)
+        return out
+    return list(values)
 
 
 def bits_of(t):
     import torch
-    return [int(x) & 0xFFFFFFFF for x in t.detach().contiguous().reshape(-1).view(torch.int32).tolist()]
+    t = t.detach().contiguous().reshape(-1)
+    w = t.element_size()
+    mask = (1 << (8 * w)) - 1
+    return [int(x) & mask for x in t.view({2: torch.int16, 4: torch.int32, 8: torch.int64}[w]).tolist()]
 
 
-def _distributor(opt):
+def _distributor(opt, gi=0):
     from distributed_shampoo.shampoo_types import DISTRIBUTOR
-    return opt._per_group_state_lists[0][DISTRIBUTOR]
+    return opt._per_group_state_lists[gi][DISTRIBUTOR]
+
+
+def groups_of(spec):
+    return [list(g) for g in spec["groups"]] if spec.get("groups") else [list(range(len(spec["shapes"])))]
 
 
 def make_shard_params(spec, init, ranges, strategy):
@@ -160,8 +212,10 @@ def make_shard_params(spec, init, ranges, strategy):
     import torch
     from distributed_shampoo.shampoo_types import FSDPParameterMetadata
     params, meta = [], {}
+    layout = spec.get("layout", "fresh")
+    data = place([init[k].reshape(-1)[a:b].clone() for k, (a, b) in enumerate(ranges)], "flat_views" if layout == "flat_views" else "fresh")
     for k, (sh, (a, b)) in enumerate(zip(spec["shapes"], ranges)):
-        p = torch.nn.Parameter(init[k].reshape(-1)[a:b].clone())
+        p = torch.nn.Parameter(data[k])
         params.append(p)
         meta[p] = FSDPParameterMetadata(fqn=f"p{k}", shape=torch.Size(sh), numel=math.prod(sh), start_idx=a, end_idx=b, sharding_strategy=strategy)
     return params, meta
@@ -174,13 +228,17 @@ def _view_of(t, base_offset):
 def observe_layout(d, params):
     """Bookkeeping of an FSDP/HSDP distributor + the gradient blocks it cuts when every gradient is present."""
     import torch
-    ptr = {}
-    for k, p in enumerate(params):
-        if p.numel() > 0:
-            ptr[p.untyped_storage().data_ptr()] = k
+
+    def owner(t, tensors):
+        for k, p in enumerate(tensors):
+            if p is not None and p.numel() > 0 and p.untyped_storage().data_ptr() == t.untyped_storage().data_ptr() \
+                    and p.storage_offset() <= t.storage_offset() < p.storage_offset() + p.numel():
+                return k
+        raise KeyError("block is not a view of any parameter of the group")
+
     blocks = []
     for b in d._global_blocked_params:
-        k = ptr[b.untyped_storage().data_ptr()]
+        k = owner(b, params)
         blocks.append((k, *_view_of(b, params[k].storage_offset())))
     saved = [p.grad for p in params]
     gptr = {}
@@ -221,7 +279,9 @@ def rounded_update_params_factory(cdtype_name, cp, recorded=None):
 
 
 def needs_rounding(spec):
-    return spec.get("cdtype", "FP32") in ("BF16", "FP16")
+    """The HSDP distributor passes what it communicates through a buffer of the communication dtype: the reference must do
+    the same whenever that is not the parameters' own dtype (narrower: a real rounding; wider: exact, emulated anyway)."""
+    return spec.get("cdtype", "FP32") in ("BF16", "FP16") or spec.get("pdtype", "float32") != "float32"
 
 
 # --------------------------------------------------------------------------------------
@@ -238,7 +298,7 @@ def impl_pieces(fn, params, shapes, ranges):
     return out
 
 
-def run_serial_on_pieces(spec, init, grads, ranges, rounded=False):
+def run_serial_on_pieces(spec, init, grads, ranges, rounded=False, r=0):
     """The SERIAL implementation (default Distributor) on the recovered pieces taken as independent parameters.
     Returns per step, per flat parameter, the bits of the concatenated pieces."""
     import torch
@@ -246,28 +306,35 @@ def run_serial_on_pieces(spec, init, grads, ranges, rounded=False):
     from distributed_shampoo.utils.shampoo_distributor import Distributor
     shapes = spec["shapes"]
     pieces = rank_pieces(shapes, ranges)
-    if not pieces:
-        return {"snaps": [], "blocks": [], "pieces": pieces, "empty": True}
+    groups = groups_of(spec)
+    pgroups = [[i for i, pc in enumerate(pieces) if pc[0] in g] for g in groups]      # piece indices per parameter group
+    if not pieces or any(not pg for pg in pgroups):     # DistributedShampoo asserts that every group has a local block
+        return {"snaps": [], "blocks": [], "blocks_by_group": [[] for _ in groups], "pieces": pieces, "empty": True}
     params = []
     for k, o, l, shp in pieces:
         a, b = ranges[k]
         params.append(torch.nn.Parameter(init[k].reshape(-1)[a:b][o:o + l].clone().view(shp)))
+    sspec = dict(spec, groups=pgroups) if spec.get("groups") else spec
     ctx = mock.patch.object(Distributor, "update_params", rounded_update_params_factory(spec["cdtype"], spec["cp"])) if rounded else None
     snaps = []
     try:
         if ctx is not None:
             ctx.__enter__()
-        opt = make_optimizer(spec, params, None)
-        d = _distributor(opt)
+        opt = make_optimizer(sspec, params, None)
         ptr = {p.untyped_storage().data_ptr(): i for i, p in enumerate(params)}
-        blocks = []
-        for bl in d._global_blocked_params:
-            i = ptr[bl.untyped_storage().data_ptr()]
-            blocks.append((i, *_view_of(bl, params[i].storage_offset())))
+        blocks, blocks_by_group = [], []
+        for gi, pg in enumerate(pgroups):
+            d = _distributor(opt, gi)
+            bg = []
+            for bl in d._global_blocked_params:
+                i = ptr[bl.untyped_storage().data_ptr()]
+                blocks.append((i, *_view_of(bl, params[i].storage_offset())))
+                bg.append((pg.index(i), *_view_of(bl, params[i].storage_offset())))     # piece index inside the group
+            blocks_by_group.append(bg)
         for t, pres in enumerate(spec["presence"]):
             for (k, o, l, shp), p in zip(pieces, params):
                 a, b = ranges[k]
-                p.grad = grads[t][k].reshape(-1)[a:b][o:o + l].clone().view(shp) if pres[k] else None
+                p.grad = grad_values(spec, grads, t, k, a, b, r)[o:o + l].clone().view(shp) if pres[k] else None
             opt.step()
             snap = []
             for k in range(len(shapes)):
@@ -280,7 +347,7 @@ def run_serial_on_pieces(spec, init, grads, ranges, rounded=False):
     finally:
         if ctx is not None:
             ctx.__exit__(None, None, None)
-    return {"snaps": snaps, "blocks": blocks, "pieces": pieces, "empty": False}
+    return {"snaps": snaps, "blocks": blocks, "blocks_by_group": blocks_by_group, "pieces": pieces, "empty": False}
 
 
 def run_fsdp_cluster(spec, cuts_ranges, rounded=False, timeout=5.0):
@@ -298,21 +365,28 @@ def run_fsdp_cluster(spec, cuts_ranges, rounded=False, timeout=5.0):
         r = ctx.rank
         ranges = cuts_ranges[r]
         params, meta = make_shard_params(spec, init, ranges, ShardingStrategy.FULL_SHARD)
-        out = {"ctor": "ok", "snaps": [], "layout": None, "rank_seen": None,
+        out = {"ctor": "ok", "snaps": [], "layout": None, "layouts": None, "rank_seen": None,
                "pieces": impl_pieces(FSDPDistributor._split_tensor_block_recovery, params, spec["shapes"], ranges)}
         try:
             opt = make_optimizer(spec, params, FSDPShampooConfig(param_to_metadata=meta))
         except AssertionError:
             out["ctor"] = "AssertionError"
             return out
-        d = _distributor(opt)
-        out["layout"] = observe_layout(d, params)
-        ids = [bi.composable_block_ids[1] for bi in d._local_block_info_list]
-        out["rank_seen"] = all(s.startswith(f"rank_{r}-") for s in ids)
+        groups = groups_of(spec)
+        out["layouts"], allblocks, seen = [], [], True
+        for gi, g in enumerate(groups):
+            d = _distributor(opt, gi)
+            lay = observe_layout(d, [params[k] for k in g])
+            out["layouts"].append(lay)
+            allblocks += [(g[b[0]], *b[1:]) for b in lay["blocks"]]
+            seen = seen and all(bi.composable_block_ids[1].startswith(f"rank_{r}-") for bi in d._local_block_info_list)
+        out["layout"] = {"blocks": allblocks}       # all groups, global parameter indices (for the each-element-once check)
+        out["rank_seen"] = seen
+        glayout = spec.get("layout", "fresh")
         for t, pres in enumerate(spec["presence"]):
+            vals = place([grad_values(spec, grads, t, k, *ranges[k], r) for k in range(len(params))], glayout)
             for k, p in enumerate(params):
-                a, b = ranges[k]
-                p.grad = grads[t][k].reshape(-1)[a:b].clone() if pres[k] else None
+                p.grad = vals[k] if pres[k] else None
             opt.step()
             out["snaps"].append([bits_of(p) for p in params])
         return out
@@ -369,10 +443,13 @@ def run_hsdp_cluster(spec, cuts_ranges, timeout=5.0):
             return real(masked_blocked_search_directions=masked_blocked_search_directions)
 
         d.update_params = update_params
+        glayout = spec.get("layout", "fresh")
         for t, pres in enumerate(spec["presence"]):
+            if spec.get("jitter"):      # ranks reach the collectives in different orders
+                time.sleep(float(torch.rand(1, generator=ctx.generator)) * 0.004)
+            vals = place([grad_values(spec, grads, t, k, *ranges[k], j) for k in range(len(params))], glayout)
             for k, p in enumerate(params):
-                a, b = ranges[k]
-                p.grad = grads[t][k].reshape(-1)[a:b].clone() if pres[k] else None
+                p.grad = vals[k] if pres[k] else None
             opt.step()
             out["snaps"].append([bits_of(p) for p in params])
             out["bsnaps"].append([bits_of(b) for b in d._global_blocked_params])
@@ -741,12 +818,16 @@ def fsdp_static_terms(spec, ranges, rk, ref):
     thr, merge, shapes = spec["maxdim"], spec.get("merge", True), spec["shapes"]
     ms = cmetas(shapes, ranges)
     t_pieces = [f"agree_pieces {ms} {cpieces(ref['pieces'])}", f"agree_pieces {ms} {cpieces(rk['pieces'])}"]
-    t_layout, t_pb = [], []
-    if rk["layout"] is not None:
-        t_layout.append(clayout(thr, merge, shapes, ranges, rk["layout"]))
-    if not ref["empty"]:
-        t_pb.append(f"agree_piece_blocks {thr} {coq_bool(merge)} {ms} {cl(cbview(b) for b in ref['blocks'])}")
-    return t_pieces, t_layout, t_pb, ms
+    t_layout, t_pb, t_ctor = [], [], []
+    for gi, g in enumerate(groups_of(spec)):        # one distributor per parameter group
+        gshapes, granges = [shapes[k] for k in g], [ranges[k] for k in g]
+        gms = cmetas(gshapes, granges)
+        if rk["layouts"] is not None:
+            t_layout.append(clayout(thr, merge, gshapes, granges, rk["layouts"][gi]))
+        if not ref["empty"]:
+            t_pb.append(f"agree_piece_blocks {thr} {coq_bool(merge)} {gms} {cl(cbview(b) for b in ref['blocks_by_group'][gi])}")
+        t_ctor.append(f"fsdp_ctor_ok (fsdp_init {thr} {coq_bool(merge)} {gms})")
+    return t_pieces, t_layout, t_pb, ms, t_ctor
 
 
 def fsdp_work(args):
@@ -764,16 +845,21 @@ def fsdp_work(args):
         if obs["errors"]:
             out["rank_errors"] = obs["errors"][:2] + obs["tracebacks"][:1]
             return out
-        refs = [run_serial_on_pieces(spec, obs["init"], obs["grads"], cr[r]) for r in range(W)]
+        rounded = needs_rounding(spec) and spec.get("emulate_comm", False)
+        refs = [run_serial_on_pieces(spec, obs["init"], obs["grads"], cr[r], rounded=rounded, r=r) for r in range(W)]
         thr, merge, shapes = spec["maxdim"], spec.get("merge", True), spec["shapes"]
         pieces_t, layout_t, pb_t, ctor_t, ranks_t = [], [], [], [], []
+        if spec.get("twice"):       # a second run in the same process (module-level / cached state must not leak)
+            obs2 = run_fsdp_cluster(spec, cr)
+            ctor_t.append(coq_bool(not obs2["errors"] and all((a or {}).get("snaps") == (b or {}).get("snaps") and (a or {}).get("ctor") == (b or {}).get("ctor")
+                                                                for a, b in zip(obs["ranks"], obs2["ranks"]))))
         for r in range(W):
             rk = obs["ranks"][r]
-            a, b, c, ms = fsdp_static_terms(spec, cr[r], rk, refs[r])
+            a, b, c, ms, ct = fsdp_static_terms(spec, cr[r], rk, refs[r])
             pieces_t += a
             layout_t += b + ([coq_bool(bool(rk["rank_seen"]))] if rk["layout"] is not None else [])
             pb_t += c
-            ctor_t.append(f"Bool.eqb (fsdp_ctor_ok (fsdp_init {thr} {coq_bool(merge)} {ms})) {coq_bool(rk['ctor'] == 'ok')}")
+            ctor_t.append(f"Bool.eqb (ball {cl(ct)}) {coq_bool(rk['ctor'] == 'ok')}")
             ctor_t.append(coq_bool((rk["ctor"] == "ok") == (not refs[r]["empty"])))
             ranks_t.append(rank_obs_coq(cr[r], rk["layout"], rk["snaps"], refs[r]["snaps"], len(shapes)))
         numels = cz(math.prod(s) for s in shapes)
@@ -820,7 +906,8 @@ def hsdp_work(args):
         if fs["errors"]:
             out["rank_errors"] = ["FSDP-only run of the shard columns: " + e for e in fs["errors"][:2]]
             return out
-        refs = [run_serial_on_pieces(spec, obs["init"], obs["grads"], cr[j], rounded=rounded) for j in range(S)]
+        refs = [run_serial_on_pieces(spec, obs["init"], obs["grads"], cr[j], rounded=rounded, r=j) for j in range(S)]
+        f32 = spec.get("pdtype", "float32") == "float32"      # the executable cluster model computes on binary32 bit patterns
         thr, merge, shapes = spec["maxdim"], spec.get("merge", True), spec["shapes"]
         static_t, col_t, defs = [], [], []
         vals_t, gath_t, hang_t, franks_t = [], [], [], []
@@ -857,7 +944,7 @@ def hsdp_work(args):
             defs.append(f"Definition bobs_{i}_{j} : observed := mkObs {cl(cl(csnap(s) for s in rk['bsnaps']) for rk in col)} logs_{i}_{j} {cl(coq_bool(h) for h in hung)}.")
             defs.append(f"Definition sobs_{i}_{j} : observed := mkObs {cl(cl(csnap(s) for s in rk['snaps']) for rk in col)} logs_{i}_{j} {cl(coq_bool(h) for h in hung)}.")
             defs.append(f"Definition ref_{i}_{j} : list snapshot := {cl(csnap(s) for s in refs[j]['snaps'])}.")
-            col_t.append(f"C07_col_agree P_{i}_{j} {S}%nat {j}%nat {cl(cl(coq_bool(p) for p in row) for row in bp)} {csnap(init_blocks)} "
+            col_t.append("true" if not f32 else f"C07_col_agree P_{i}_{j} {S}%nat {j}%nat {cl(cl(coq_bool(p) for p in row) for row in bp)} {csnap(init_blocks)} "
                          f"{csnap([[0] * len(b) for b in init_blocks])} {coq_bool(bool(sig['cols'][j]['starving_steps']))} bobs_{i}_{j}")
             vals_t.append(f"C06_values_ok ref_{i}_{j} sobs_{i}_{j}")
             gath_t.append(f"C06_gathers_ok {gs}%nat sobs_{i}_{j}")
